@@ -401,7 +401,14 @@ func cmdStmts(args []string) error {
 			if os.Getenv("VERIF_DEBUG") != "" && res.cls != "ok" {
 				fmt.Fprintf(os.Stderr, "%s | %s | %s\n", res.cls, res.text, text)
 			}
-			g.emit("D", dumpStore(g.store))
+			dump := dumpStore(g.store)
+			g.emit("D", dump)
+			if strings.Count(dump, ";") > 400 {
+				// CONSTRUCT into a graph it reads from multiplies the graph; a few rounds later one statement
+				// legitimately takes longer than the watchdog allows: the scenario ends here
+				hist["scenario-ended-store-large"]++
+				break
+			}
 			if res.cls != "ok" && res.cls != "reject" && st != nil && (st.Type() == semantic.Construct || st.Type() == semantic.Deconstruct) {
 				// a template error in the middle of the rows leaves a state the property does not constrain
 				break
